@@ -123,32 +123,26 @@ theorem walkSpec_perm (admin : Bool) (g₁ g₂ : List (Path × List Nat)) (h : 
       rw [lookup_perm admin g₁ g₂ h a (hl a (by simp)), ih (fun x hx => hl x (by simp [hx]))]
   rw [this _ (ancestors_normal n hn)]
 
-theorem privs_isEmpty_perm (admin : Bool) (g₁ g₂ : List (Path × List Nat)) (h : g₁.Perm g₂) :
-    ((newUser admin g₁).privs.length > 0) ↔ ((newUser admin g₂).privs.length > 0) := by
-  have key : ∀ (g : List (Path × List Nat)), ((newUser admin g).privs.length > 0) ↔ g ≠ [] := by
-    intro g
-    unfold newUser
-    simp only
-    have hm : ∀ (m : List (Path × Nat)) k v, (mapOr m k v).length > 0 := by
-      intro m k v
-      cases m with
-      | nil => simp [mapOr]
-      | cons e rest => unfold mapOr; split <;> simp
-    have hfold : ∀ (l : List (Path × List Nat)) (m : List (Path × Nat)), m.length > 0 →
-        (l.foldl (fun m g => mapOr m (clean g.1) (orMask g.2)) m).length > 0 := by
-      intro l
-      induction l with
-      | nil => intro m hm'; simpa using hm'
-      | cons x xs ih => intro m _; simp only [List.foldl_cons]; exact ih _ (hm _ _ _)
-    cases g with
-    | nil => simp
-    | cons x xs =>
-      simp only [List.foldl_cons, ne_eq, reduceCtorEq, not_false_eq_true, iff_true]
-      exact hfold xs _ (hm _ _ _)
-  rw [key, key]
-  constructor
-  · intro h1 e; subst e; exact h1 (List.Perm.eq_nil h)
-  · intro h1 e; subst e; exact h1 (List.Perm.eq_nil h.symm)
+/-- **The order in which `NewUser` visits the map is irrelevant** (after fix 06df506): permuted grant lists
+give the same decision on every resource and privilege. -/
+theorem authorize_perm (admin : Bool) (g₁ g₂ : List (Path × List Nat)) (h : g₁.Perm g₂) (res : Path) (want : Nat) :
+    authorizeAction (newUser admin g₁) res want = authorizeAction (newUser admin g₂) res want := by
+  by_cases h0 : want = noPriv ∨ admin = true
+  · unfold authorizeAction
+    have a1 : (newUser admin g₁).admin = admin := rfl
+    have a2 : (newUser admin g₂).admin = admin := rfl
+    rw [a1, a2, if_pos h0, if_pos h0]
+  · cases hp : isAbs res with
+    | false =>
+      unfold authorizeAction
+      have a1 : (newUser admin g₁).admin = admin := rfl
+      have a2 : (newUser admin g₂).admin = admin := rfl
+      rw [a1, a2, if_neg h0, if_neg h0]
+      simp [hp]
+    | true =>
+      obtain ⟨cs, rfl⟩ := (isAbs_iff res).mp hp
+      rw [authorizeAction_walkSpec (newUser admin g₁) cs want h0, authorizeAction_walkSpec (newUser admin g₂) cs want h0]
+      exact walkSpec_perm admin g₁ g₂ h want _ (nodeOf_normal _ _ (nodeOf_abs cs)).1
 
 theorem mayAllow_congr (a : Account) (r1 r2 : Path) (want : Nat) (h : nodeOf r1 = nodeOf r2) :
     mayAllow a r1 want = mayAllow a r2 want := by
